@@ -113,3 +113,15 @@ for (nm, kinds, faults, kw) in [
 LSTF = ["AddBusListenerFilter", "RemoveBusListenerFilter", "ClearBusListenerFilters", "StartBusListener", "StopBusListener"]
 cfg("R_ListenersF", LSTF, [], script="lstf", budget=3, inq=1, replay=0, senders=(0,), pool=("live",), objuuids=(101,))
 cfg("MC_ListenersF", LSTF + ["CreateObject", "DestroyObject"], ["ends"], script="lstf", budget=4, senders=(0, 1), pool=("live",), objuuids=(101,), maxcookie=4)
+
+# calls from a state with one call already pending: abort / reuse of the caller's serial / late and foreign replies
+CALLSP = ["CallFunction", "CallFunctionReply", "AbortFunctionCall"]
+cfg("R_CallsP", CALLSP, [], script="pend", budget=3, inq=1, replay=0, pool=("live",), cserials=(0,), objuuids=(101,))
+cfg("MC_CallsP", CALLSP + ["DestroyService"], ["ends", "dropped"], script="pend", budget=4, pool=("live", "never"), cserials=(0,), objuuids=(101,))
+cfg("R_CallsP_old", CALLSP, [], script="pend", budget=3, inq=1, replay=0, pool=("live",), cserials=(0,), objuuids=(101,), v0=14, v1=20)
+
+# introspection: registrations, queries, solicited / unsolicited / declining replies, connections ending
+INTRO = ["RegisterIntrospection", "QueryIntrospection", "QueryIntrospectionReply"]
+cfg("MC_Intro", INTRO, ["ends", "dropped"], conns=(0, 1, 2), budget=4, cserials=(0,))
+cfg("MC_Intro_thorough", INTRO, ["ends", "dropped", "sdc"], conns=(0, 1, 2), budget=5, cserials=(0, 1))
+cfg("R_Intro", INTRO, ["ends", "dropped"], conns=(0, 1, 2), budget=3, inq=1, replay=1, cserials=(0,))
